@@ -478,6 +478,34 @@ func (in *Interp) fmtOperand(v Value, verb byte, sharp bool) ([]*Term, bool) {
 	return in.fmtOperandM(v, verb, sharp, true)
 }
 
+// callFormatter runs operand.Format(state, verb) with a state object of the harness run-time's type
+// vfFmtState and returns the bytes written to it.
+func (in *Interp) callFormatter(m *ssa.Function, iv IfaceV, verb byte) ([]*Term, bool) {
+	if len(in.ld.harnessFns) == 0 {
+		return nil, false
+	}
+	st := in.ld.harnessFns[0].Pkg.Type("vfFmtState")
+	if st == nil {
+		return nil, false
+	}
+	obj := in.newObj(st.Type(), in.zero(st.Type()), "fmt.State")
+	state := IfaceV{t: types.NewPointer(st.Type()), v: PtrV{obj: obj}}
+	in.callFn(m, []Value{iv.v, state, in.tt.Const(32, uint64(verb))}, nil)
+	sv, ok := obj.v.(*StructV)
+	if !ok || len(sv.f) == 0 {
+		return nil, false
+	}
+	buf, ok := sv.f[0].(SliceV)
+	if !ok {
+		return nil, false
+	}
+	var out []*Term
+	for _, e := range in.sliceElems(buf) {
+		out = append(out, e.(*Term))
+	}
+	return out, true
+}
+
 func (in *Interp) fmtOperandM(v Value, verb byte, sharp bool, methods bool) ([]*Term, bool) {
 	iv, ok := v.(IfaceV)
 	if !ok {
@@ -494,6 +522,18 @@ func (in *Interp) fmtOperandM(v Value, verb byte, sharp bool, methods bool) ([]*
 	}
 	if verb == 'T' {
 		return in.mkStr(typeString(iv.t)).b, true
+	}
+	// fmt.Formatter takes precedence over everything else: the operand formats itself into a fmt.State
+	// (the harness run-time's vfFmtState: no flags, no width, no precision)
+	if methods {
+		if m := in.lookupMethod(iv.t, nil, "Format"); m != nil && m.Signature.Params().Len() == 2 && m.Signature.Results().Len() == 0 {
+			if p, isPtr := iv.v.(PtrV); !(isPtr && p.isNil()) {
+				if b, ok := in.callFormatter(m, iv, verb); ok {
+					return b, true
+				}
+				return nil, false
+			}
+		}
 	}
 	if verb == 'v' && sharp && methods {
 		if m := in.lookupMethod(iv.t, nil, "GoString"); m != nil && m.Signature.Params().Len() == 0 && m.Signature.Results().Len() == 1 {
